@@ -317,6 +317,26 @@ func (c *octx) panicRule() *eng.Violation {
 	return nil
 }
 
+func hasNested(sc *Scn) bool {
+	for _, n := range sc.Nodes {
+		for _, vs := range n.Visits {
+			for _, o := range vs.Exec {
+				if o.Nested > 0 {
+					return true
+				}
+			}
+			for _, it := range vs.Items {
+				for _, o := range it.Exec {
+					if o.Nested > 0 {
+						return true
+					}
+				}
+			}
+		}
+	}
+	return false
+}
+
 func hasPanic(sc *Scn) bool {
 	for _, n := range sc.Nodes {
 		for _, vs := range n.Visits {
@@ -903,8 +923,19 @@ func (c *octx) waits() *eng.Violation {
 // ---- C10: store identity and contents ------------------------------------------
 
 func (c *octx) storeEq() *eng.Violation {
+	scratch := 0 // nested runs on a scratch store in progress (they see that store; the main-lane comparison checks which)
 	for _, e := range c.res.Events {
-		if (e.Kind == "prep_start" || e.Kind == "post_start") && e.S1 != "S0" {
+		switch e.Kind {
+		case "nested_start":
+			if e.S2 == "scratch" {
+				scratch++
+			}
+		case "nested_end":
+			if e.S2 == "scratch" {
+				scratch--
+			}
+		}
+		if (e.Kind == "prep_start" || e.Kind == "post_start") && e.S1 != "S0" && scratch == 0 {
 			return c.viol("store-identity", "%s of node %d received store %s, not the store given to the outermost run", e.Kind, e.N, e.S1)
 		}
 	}
